@@ -227,6 +227,77 @@ def main(argv=None):
         else:
             discharged += 1
 
+    # syntactic shape of the result loop of main() (C19): what R16 drops around the lifted `Ok(value)` arm -- the loop and the `match` --
+    # is pinned token-wise, so that "one `printed(value, exact)` per Ok result, a diagnostic per Err result, nothing aborts the loop" follows
+    if cfg.get("cli_loop_scan"):
+        from .extract import SourceFile, LostAnchor as _LA
+        from .rusttok import match_close as _mc, TRIVIA as _TRIVIA, norm as _norm
+        cs = cfg["cli_loop_scan"]
+        probs = []
+        try:
+            sf = SourceFile(cs["file"], open(os.path.join(REPO, cs["file"]), encoding="utf-8").read())
+            it = sf.find("fn main")
+            toks = sf.toks
+            sig = [k for k in range(it.start, it.end + 1) if toks[k].kind not in _TRIVIA]
+            txt = [toks[k].text for k in sig]
+
+            def find(pat, lo=0, hi=None):
+                hi = len(txt) if hi is None else hi
+                return [p for p in range(lo, hi - len(pat) + 1) if txt[p:p + len(pat)] == pat]
+            fors = [p for p in find(["for"]) if p + 1 < len(txt) and txt[p + 1] != "<"]
+            if len(fors) != 2 or txt[fors[0]:fors[0] + len(_norm("for value in anything::query(&parsed"))] != _norm("for value in anything::query(&parsed"):
+                probs.append(f"main() is expected to hold the result loop `for value in anything::query(&parsed, ..)` and the description loop, found {len(fors)} `for`")
+            else:
+                p = fors[0]
+                q = p
+                while txt[q] != "{" or False:
+                    if txt[q] in "([":
+                        q = sig.index(_mc(toks, sig[q]))
+                    q += 1
+                body_lo, body_hi = q, sig.index(_mc(toks, sig[q]))
+                inner = txt[body_lo + 1:body_hi]
+                head = _norm("match value { Ok(value) => {")
+                if inner[:len(head)] != head:
+                    probs.append("the loop body does not start with `match value { Ok(value) => {`")
+                else:
+                    ok_open = body_lo + 1 + len(head) - 1
+                    ok_close = sig.index(_mc(toks, sig[ok_open]))
+                    r = ok_close + 1
+                    if txt[r] == ",":
+                        r += 1
+                    eh = _norm("Err(e) => {")
+                    if txt[r:r + len(eh)] != eh:
+                        probs.append("the second arm of the loop's match is not `Err(e) => {`")
+                    else:
+                        err_open = r + len(eh) - 1
+                        err_close = sig.index(_mc(toks, sig[err_open]))
+                        tail = txt[err_close + 1:body_hi]
+                        if [t for t in tail if t != ","] != ["}"]:
+                            probs.append("the loop body holds more than the two-armed match")
+                        errtxt = txt[err_open:err_close + 1]
+                        need = _norm("term::emit(&mut out, &config, &files, &diagnostic)?")
+                        if not any(errtxt[i:i + len(need)] == need for i in range(len(errtxt))):
+                            probs.append("the Err arm does not emit the diagnostic with `term::emit(&mut out, &config, &files, &diagnostic)?`")
+                        for must in (_norm("e.to_string()"), _norm("e.range()")):
+                            if not any(errtxt[i:i + len(must)] == must for i in range(len(errtxt))):
+                                probs.append(f"the Err arm does not use `{''.join(must)}` for the diagnostic")
+                for bad in ("break", "return", "continue", "exit", "abort", "panic", "unwrap", "expect"):
+                    if bad in inner:
+                        probs.append(f"`{bad}` inside the result loop (a result could abort the remaining ones)")
+                # the flag the arm reads is the parsed command line, never reassigned
+                if len(find(_norm("opts.exact ="))) != len(find(_norm("opts.exact =="))):
+                    probs.append("`opts.exact` is assigned in main()")
+                if not find(_norm("let opts = Opts::from_args()")):
+                    probs.append("`let opts = Opts::from_args()` not found")
+        except (_LA, OSError, ValueError, IndexError) as e:
+            probs.append(f"lost anchor: {e}")
+        obligations += 1
+        clause_ids.append(cs["cid"])
+        if probs:
+            undecided.append(dict(unit="cli-loop-scan", reason="needs-contract", message=f"[{cs['cid']}] {cs['what']}: {'; '.join(probs[:5])} -- the code around the lifted arm no longer has the shape the contract was written for, so this part is undecided"))
+        else:
+            discharged += 1
+
     # Kani side (function contract on the real function, loop-free full-domain harnesses on a scratch copy)
     kani_res = None
     if cfg.get("kani") == "leaves":
